@@ -4,7 +4,7 @@ from __future__ import annotations
 
 import ast
 
-from tiv.astutil import (body_walk, call_name, dotted, enclosing_stmt, guards, norm, short, stores_in, walk_local,
+from tiv.astutil import (value_cases, conds, body_walk, call_name, dotted, enclosing_stmt, guards, norm, short, stores_in, walk_local,
                          with_context)
 from tiv.callgraph import CallGraph
 from tiv.cfg import CFG
@@ -211,18 +211,21 @@ def run(ck, m):
                 wr.append((rel, getattr(st, "_q", "") or "<module>", st))
     for rel, q, st in wr:
         ck.ob("R5", st, rel == I and q in ("<module>", "set_cell_ratio"), f"`_cell_ratio` written in {rel}::{q}", stmt=f"writer {rel}::{q}: {short(st, 60)}")
+    n_cases = 0
     for t, st in stores_in(ast.Module(body=scr.body, type_ignores=[])):
         if isinstance(t, ast.Name) and t.id == "_cell_ratio":
-            gs = [(norm(x), b) for x, b in guards(st)]
-            fixed = any("AutoCellRatio.FIXED" in x and b for x, b in gs)
-            dyn = any("AutoCellRatio.FIXED" in x and not b for x, b in gs)
-            is_none = isinstance(st.value, ast.Constant) and st.value.value is None
-            if fixed:
-                ck.ob("R5", st, not is_none and "get_cell_size()" in norm(st.value), "FIXED must snapshot the ratio computed from get_cell_size() now", stmt="set_cell_ratio FIXED")
-            elif dyn:
-                ck.ob("R5", st, is_none, "DYNAMIC must store None so that get_cell_ratio() recomputes on every call", stmt="set_cell_ratio DYNAMIC")
-            else:
-                ck.ob("R5", st, norm(st.value) == "ratio", "an explicit ratio must be stored unchanged", stmt="set_cell_ratio explicit")
+            for cs, v in value_cases(st):
+                n_cases += 1
+                auto = "isinstance(ratio, AutoCellRatio)" in cs
+                fixed = auto and "ratio is AutoCellRatio.FIXED" in cs
+                is_none = isinstance(v, ast.Constant) and v.value is None
+                if fixed:
+                    ck.ob("R5", st, not is_none and "get_cell_size()" in norm(v), "FIXED must snapshot the ratio computed from get_cell_size() now", stmt="set_cell_ratio FIXED")
+                elif auto:
+                    ck.ob("R5", st, is_none, f"DYNAMIC must store None so that get_cell_ratio() recomputes on every call; stores `{short(v, 40)}`", stmt="set_cell_ratio DYNAMIC")
+                else:
+                    ck.ob("R5", st, norm(v) == "ratio", "an explicit ratio must be stored unchanged", stmt="set_cell_ratio explicit")
+    ck.expect(n_cases == 3, f"set_cell_ratio: expected the 3 cases FIXED / DYNAMIC / explicit, found {n_cases}")
     ret = [s for s in gcr.body if isinstance(s, ast.Return)]
     ok = len(ret) == 1 and isinstance(ret[0].value, ast.BoolOp) and isinstance(ret[0].value.op, ast.Or) \
         and norm(ret[0].value.values[0]) == "_cell_ratio" and "get_cell_size()" in norm(ret[0].value.values[1])
